@@ -305,8 +305,10 @@ Qed.
    draining (hash deleted); an input digest that differs from the stored one gives PENDING, not
    deferred, without hash and without amended inputs (so the next dispatch runs the command);
    otherwise try_skip_job stays CHECKING to hash the outputs and validate_dynamic_job puts the step
-   back to PENDING with the `deferred` flag that the source passes to set_state there (generated:
-   validate_unchanged_deferred; when it is False the whole state is exactly as it was). *)
+   back to PENDING with the `deferred` flag that the source passes to set_state there (a TRANSLATED
+   expression, validate_unchanged_deferred_gen: since 84081f2 the value of
+   step.has_unusable_dynamic_input(), FreshSkip.has_unusable_dyn over the generated per-input test;
+   when it is False the whole state is exactly as it was). *)
 Theorem C03_checking_outcomes :
   forall (x : xworld) (t : N) (x' : xworld) (k : N) (s : bool) (sh : shash),
     do_xtry x t false = (x', XRTry k s) -> (k = 2 \/ k = 3) -> x_hash x = Some sh ->
@@ -322,8 +324,10 @@ Theorem C03_checking_outcomes :
        x_hash x' = Some sh /\
        (k = 2 -> c_state (xb x') = SS_CHECKING /\
                  x_chk x' = Some (mkChk sh (x_envc x) (canon (snapshot (xb x))) (snapshot (xb x)))) /\
-       (k = 3 -> c_state (xb x') = SS_PENDING /\ c_deferred (xb x') = validate_unchanged_deferred /\
-                 x_chk x' = x_chk x /\ (validate_unchanged_deferred = false -> x' = x))).
+       (k = 3 -> c_state (xb x') = SS_PENDING /\
+                 c_deferred (xb x') = validate_unchanged_deferred_gen (has_unusable_dyn (xb x)) /\
+                 x_chk x' = x_chk x /\
+                 (validate_unchanged_deferred_gen (has_unusable_dyn (xb x)) = false -> x' = x))).
 Proof. exact checking_outcomes. Qed.
 
 (* try_skip_job after the output hashing: SUCCEEDED iff not cancelled, the stored output
@@ -360,15 +364,19 @@ Theorem C03_validate_never_succeeds_never_runs :
     do_xtry x t cancel = (x', XRTry 3 s) ->
     s = false /\ c_run (xb x') = None /\ x_chk x' = None /\
     (c_state (xb x') = SS_PENDING \/ c_state (xb x') = SS_FAILED) /\
-    (has_hash x' = true -> validate_unchanged_deferred = false -> x' = x).
+    (has_hash x' = true -> validate_unchanged_deferred_gen (has_unusable_dyn (xb x)) = false -> x' = x).
 Proof. exact validate_never_succeeds_never_runs. Qed.
 
 (* The "digest unchanged" branch of validate_dynamic_job since fix d760e3e (finding D36): the step
    is left PENDING *and deferred* with its hash, and it is NOT dispatched again, whatever other actors
    do, until a transaction changes the row of c itself -- which is what Workflow.mark_step_pending
-   does (it clears `deferred`) when an input of c changes.  (`deferred` is the generated
-   validate_unchanged_deferred; FreshSkipProofs.validate_unchanged_is_deferred breaks if the source
-   stops passing True.) *)
+   does (it clears `deferred`) when an input of c changes, and the trigger
+   step_node_undefer_reattached when a detached input is revived (84081f2, fix of D39).  A validation
+   job is only derived while a dynamic input is unusable (FreshSkipProofs.unusable_iff_not_ready:
+   has_unusable_dynamic_input() is the exact opposite of dynamic_inputs_ready), so within this ONE
+   event the translated flag validate_unchanged_deferred_gen is evaluated on True;
+   FreshSkipProofs.validate_unchanged_is_deferred (the flag is True when an unusable dynamic input
+   exists) breaks if the source stops parking the step in that case. *)
 Theorem C03_validate_unchanged_waits :
   forall (x : xworld) (t : N) (x' : xworld) (s : bool),
     do_xtry x t false = (x', XRTry 3 s) -> has_hash x' = true ->
@@ -376,6 +384,27 @@ Theorem C03_validate_unchanged_waits :
     forall mid, forallb not_crow mid = true ->
       forall t' c, do_xtry (xrun mid x') t' c = (xrun mid x', XRTry 0 false).
 Proof. exact validate_unchanged_waits. Qed.
+
+(* The other half of the termination argument for D36 since 84081f2 (scheduler side:
+   props/C10.v C10_validate_outcome_redispatched_only_as_check).  The source decides the flag in the
+   transaction that records the outcome, i.e. in a world y that can differ from the world of the
+   dispatch (the inputs may have come back while the job was in flight).  If the flag comes out
+   False there, no dynamic input of c is unusable in y, and whatever the row of c is set to, the
+   next dispatch of c -- at any clock reading, cancelled or not -- is NOT a validation job again: it
+   is a try_skip_job (a check) or no job at all. *)
+Theorem C03_validate_outcome_redispatched_only_as_check :
+  forall (y : xworld) (st : N) (df : bool) (dc : N) (t : N) (c : bool) (x' : xworld) (k : N) (s : bool),
+    validate_unchanged_deferred_gen (has_unusable_dyn (xb y)) = false ->
+    do_xtry (set_xb y (set_crow (xb y) st df dc)) t c = (x', XRTry k s) ->
+    has_unusable_dyn (xb y) = false /\ k <> 3.
+Proof. exact validate_outcome_redispatched_only_as_check. Qed.
+
+(* Step.has_unusable_dynamic_input() (generated per-input test: detached or state not CONFIRMED/BUILT)
+   is the exact opposite of the dynamic_inputs_ready test of Scheduler._derive_job, when no sanity
+   check of _derive_job fires. *)
+Theorem C03_unusable_dynamic_input_iff_not_ready :
+  forall w : world, derive_error w = false -> has_unusable_dyn w = negb (dyn_ready w).
+Proof. exact unusable_iff_not_ready. Qed.
 
 (* Regression statement for finding D36 (fixed by d760e3e; not a C03 violation but a dispatch loop,
    C10): with the code BEFORE the fix (validate_prefix: set_state(PENDING) without `deferred`), a
